@@ -284,6 +284,51 @@ def _extend(ip, st, t, a, rt):
     return V4(p[0], p[1], p[2], as_rf(a[1]))
 
 
+# glam-0.27 bool/bvec3.rs, f64/dvec3.rs:94 — component selection (moves values, computes nothing)
+def _bvec3(v):
+    """-> [B, B, B] of a BVec3 value, or None"""
+    v = deref(v)
+    if isinstance(v, I.St) and v.adt == 'glam::BVec3':
+        return [v.fields[k] for k in 'xyz']
+    if isinstance(v, I.Sym) and v.atom.kind == 'sym':
+        nm = str(v.atom.name)
+        if nm.endswith('glam::BVec3::TRUE'):
+            return [I.TRUE] * 3
+        if nm.endswith('glam::BVec3::FALSE'):
+            return [I.FALSE] * 3
+    return None
+
+
+@reg('glam::BVec3::new')
+def _bvec3_new(ip, st, t, a, rt):
+    bs = []
+    for x in a:
+        x = deref(x)
+        if isinstance(x, bool):
+            x = I.b_const(x)
+        if not isinstance(x, I.B):
+            return NotImplemented
+        bs.append(x)
+    return I.St('glam::BVec3', 'BVec3', dict(zip('xyz', bs)))
+
+
+@reg('glam::BVec3::splat')
+def _bvec3_splat(ip, st, t, a, rt):
+    x = deref(a[0])
+    if not isinstance(x, I.B):
+        return NotImplemented
+    return I.St('glam::BVec3', 'BVec3', {'x': x, 'y': x, 'z': x})
+
+
+@reg('glam::DVec3::select')
+def _vselect(ip, st, t, a, rt):
+    m = _bvec3(a[0])
+    if m is None:
+        return NotImplemented
+    p, q = c3(a[1]), c3(a[2])
+    return V3(*[I.ite(m[i], p[i], q[i]) for i in range(3)])
+
+
 @reg('<glam::DVec3 as std::default::Default>::default')
 def _vdefault(ip, st, t, a, rt):
     return V3(0, 0, 0)
